@@ -64,6 +64,11 @@ func build(t *wirecodec.Table, kind string, tag uint16, rng *rand.Rand) []byte {
 	case "trailing":
 		b := t.EncodeBody("Tgetattr", wirecodec.Values{"fid": 1, "request_mask": []string{"size"}})
 		return frame(t.Layout["Tgetattr"].ID, append(b, make([]byte, 1+rng.Intn(5))...))
+	case "rejver":
+		// refused: msize is not adopted (1 MiB would let an oversized frame through, 16 would kill a good one)
+		ms := []uint64{1 << 20, 16, 4 << 20, 100}[rng.Intn(4)]
+		ver := []string{"9P2000.u", "9P2000", "junk"}[rng.Intn(3)]
+		return t.Encode("Tversion", tag, wirecodec.Values{"msize": ms, "version": ver})
 	case "unknown":
 		typs := []uint8{0, 1, 6, 10, 11, 28, 29, 34, 54, 55, 99, 124, 125, 136, 200, 255}
 		return frame(typs[rng.Intn(len(typs))], make([]byte, rng.Intn(30)))
